@@ -97,7 +97,12 @@ def show(v):
     if t in ("bool", "str"):
         return v["v"]
     if t == "int":
-        return v["v"] if "v" in v else "int:" + json.dumps(v["dec"])
+        if "v" in v:
+            return v["v"]
+        if "dec" in v:
+            d = v["dec"]
+            return "int:%s%s%s" % ("-" if d["neg"] else "", "".join(str(x) for x in d["digits"]), "0" * d["exp10"])
+        return "int:%s+%d" % (v.get("big"), v.get("off", 0))
     if t == "flt":
         return "float:" + (v.get("s") or "%d/2^%d" % tuple(v["q"]))
     if t == "time":
@@ -126,8 +131,11 @@ def main(ctx):
     ctx.design("Diff", "Diff_small.cfg" if ctx.quick else "Diff_mid.cfg", workers=4 if ctx.quick else 8,
                coverage=not ctx.quick, heap="6g", timeout=1500)
     ctx.design("Diff", "Diff_bug.cfg", expect_violation="BugOK", workers=4, heap="4g")
+    ctx.design("Diff", "Diff_rich.cfg", workers=4, heap="4g")
     # (b) TLC-generated behaviours
     cases = tlc_cases(ctx, 3, 1, False, 0)
+    # every leaf kind incl. integers beyond 2^53 / at the ends of int64 with their near neighbours (rich alphabet)
+    cases += tlc_cases(ctx, 2, 2, True, 0)
     ctx.cov["model_pairs_exhaustive"] = len(cases)
     if ctx.quick:
         sim = tlc_cases(ctx, 7, 3, True, 6, simulate="num=80", depth=14)
@@ -172,8 +180,8 @@ def main(ctx):
     ctx.assumptions += [
         "int versus numerically equal float may or may not be reported (numeric width is read either way)",
         "differences covered by an ignore path may or may not be returned; completeness is not demanded where an ignore path reaches below the differing location",
-        "Match: null fingerprint member vs absent target member, longer target array, int-vs-equal-float are open",
-        "values: |int| < 2^63 (uint64 beyond int64 excluded: ojg normalises to int64), no NaN/Inf/-0, times differ by whole seconds (TimeTolerance not modelled)",
+        "Match: a null fingerprint member matches an absent target member (documented obligation); longer target array, null fingerprint elements beyond the target array's end, int-vs-equal-float are open",
+        "values: |int| < 2^63 incl. near neighbours beyond 2^53 and at both ends of int64, compared exactly as decimal digit records (uint64 beyond int64 excluded: ojg normalises to int64), no NaN/Inf/-0, times differ by whole seconds (TimeTolerance not modelled)",
     ]
 
     def confirm(rec):
